@@ -769,7 +769,10 @@ pub fn engine_overtake(rt: &tokio::runtime::Runtime, cases: Vec<Value>, out: &mu
         let scenario = get_str(&case, "scenario").unwrap_or("task").to_string();
         let data2 = data.clone();
         let ws2 = ws.clone();
+        let delivered: Arc<std::sync::Mutex<Vec<u64>>> = Arc::new(std::sync::Mutex::new(Vec::new()));
+        let delivered2 = delivered.clone();
         rt.block_on(async move {
+            let delivered = delivered2;
             let server = crate::srv::Server::start(data2, ws2, None, false).await;
             let base = server.base.clone();
             let client = reqwest::Client::new();
@@ -780,6 +783,48 @@ pub fn engine_overtake(rt: &tokio::runtime::Runtime, cases: Vec<Value>, out: &mu
                         .json(&json!({"tool": "bash", "args": {"command": "echo o1; echo e1 1>&2; sleep 0.05; echo o2; echo e2 1>&2"}}))
                         .send()
                         .await;
+                }
+                "task_sub" => {
+                    // two pumps emitting concurrently while a subscriber is attached from the start
+                    if let Ok(r) = client
+                        .post(format!("{base}/tasks"))
+                        .json(&json!({"tool": "bash", "args": {"command": "echo o1; echo e1 1>&2; sleep 0.05; echo o2; echo e2 1>&2; sleep 0.05; echo o3; echo e3 1>&2"}}))
+                        .send()
+                        .await
+                    {
+                        if let Ok(v) = r.json::<Value>().await {
+                            let id = v["task_id"].as_str().unwrap_or("").to_string();
+                            if let Ok(resp) = client.get(format!("{base}/tasks/{id}/events")).send().await {
+                                use futures_util::StreamExt;
+                                let mut stream = resp.bytes_stream();
+                                let mut buf = String::new();
+                                let deadline = tokio::time::Instant::now() + Duration::from_secs(4);
+                                loop {
+                                    let next = tokio::time::timeout_at(deadline, stream.next()).await;
+                                    let Ok(Some(Ok(chunk))) = next else { break };
+                                    buf.push_str(&String::from_utf8_lossy(&chunk));
+                                    while let Some(pos) = buf.find("\n\n") {
+                                        let ev: String = buf.drain(..pos + 2).collect();
+                                        for line in ev.lines() {
+                                            if let Some(d) = line.strip_prefix("data:") {
+                                                if let Ok(v) = serde_json::from_str::<Value>(d.trim()) {
+                                                    if let Some(q) = v["seq"].as_u64() {
+                                                        delivered.lock().unwrap().push(q);
+                                                    }
+                                                    if v["type"] == "tool_task_status" && v["status"] != "running" && v["status"] != "queued" {
+                                                        // terminal status: allow a short grace for stragglers
+                                                        tokio::time::sleep(Duration::from_millis(150)).await;
+                                                    }
+                                                }
+                                            }
+                                        }
+                                    }
+                                    let d = delivered.lock().unwrap().clone();
+                                    let _ = d;
+                                }
+                            }
+                        }
+                    }
                 }
                 "task_cancel" => {
                     if let Ok(r) = client
@@ -880,7 +925,8 @@ pub fn engine_overtake(rt: &tokio::runtime::Runtime, cases: Vec<Value>, out: &mu
             })
             .collect();
         let summary = log_summary(&data);
-        out.write(&json!({"id": case["id"], "summary": summary, "trace": trace, "overtaken": overtaken}));
+        let delivered = delivered.lock().unwrap().clone();
+        out.write(&json!({"id": case["id"], "summary": summary, "trace": trace, "overtaken": overtaken, "delivered": delivered}));
         let _ = std::fs::remove_dir_all(&root);
     }
 }
